@@ -65,7 +65,11 @@ def fifo_like(name, dut, cap, hints=None, bypass=False, N=None, sink=None, sourc
                 off -= s_.nbits
                 if 1 < s_.nbits or CAPG <= 3: h.view(f"q{i}.{s_.backtrace[-1][0] if s_.backtrace else 'f'}", z3.Extract(off + s_.nbits - 1, off, q[i]))
     h.hint("qlen<=cap", ule(qlen, cap))
-    if hints: hints(h, qlen, q)
+    if hints:
+        # hand-written hints refer to internal registers: when the code's internals no longer have the shape they assume (renamed, narrowed or
+        # removed register) the hints are dropped and the generated candidates take over - never a harness fault, the POSTCONDITIONS decide
+        try: hints(h, qlen, q)
+        except (z3.Z3Exception, AttributeError, KeyError, TypeError, IndexError) as e: h.use_auto = True; h.assumption_notes.append(f"hand-written invariant hints not applicable ({type(e).__name__}): generated candidates used")
     fx = xform or (lambda t: t)
     head_ok = z3.And(nonempty, tok(h, source) == fx(q[0]))
     if bypass:
